@@ -48,11 +48,14 @@ class WorldC05(World):
               'name-starts-with-digit', 'zero-count-entry', 'dict-input', 'tuple-read', 'dict-read', 'crlf-newline',
               'supp-data', 'supp-txt', 'supp-record-shares-a-name', 'second-generation', 'rewrite-after-in-place-edit', 'cross-encoding-read-refused', 'non-ascii-name', 'same-length-overwrite',
               'persistent-fault', 'no-date', 'extreme-coefficients', 'zero-coefficient', '>=50-species',
-              'clock-jump-before-write', 'fault-did-not-fire', 'comment-with-keyword', 'two-letter-three-digit', 'recovery-after-fault', 'read-of-padded-file', 'alloc-failure-signalled', 'alloc-failure-over-existing-file')
+              'clock-jump-before-write', 'fault-did-not-fire', 'comment-with-keyword', 'two-letter-three-digit', 'recovery-after-fault', 'read-of-padded-file', 'comma-decimal-locale', 'alloc-failure-signalled', 'alloc-failure-over-existing-file')
     REAL = ('pmutt.io.thermdat.write_thermdat / read_thermdat and helpers', 'pmutt.empirical.nasa.Nasa')
     SIMULATED = ('disk: SimFS shim over a scratch directory (open/write/close errors, ENOSPC after k chars, crash at '
                  'pre_open/post_open/mid_write/pre_close, read-open and mid-read errors)',
                  'clock: SimClock bound to pmutt.io.thermdat.datetime (jumps: years, backward, midnight, year 1000/9999)',
+                 'allocator: SimAlloc (MemoryError at a seeded function entry of the writer call)',
+                 'locale: locale.localeconv() answering with a decimal comma for a third of the runs',
+                 'a tool between writer and reader that pads records with trailing blanks',
                  '1-3 clients writing and reading 2-4 paths')
     TRIGGERS = {
         'C05-name-keyword': 'a written species name contains END or THERMO',
@@ -79,7 +82,11 @@ class WorldC05(World):
         }
 
     def gen_swarm(self, rng, tier):
+        side = side_stream(rng)
         sw = self._gen_swarm0(rng, tier)
+        # the embedding application runs under a locale whose decimal point is a comma (setlocale(LC_ALL, '') on a German
+        # desktop): thermdat fields stay C-formatted numbers
+        sw['numeric_locale'] = side.choice(['C', 'C', 'de'])
         sw['upper_symbols'] = rng.random() < 0.25
         sw['fs_mtime_res'] = rng.choice([1.0, 1.0, 2.0, 0.001])
         # a writer under a Latin-1 locale, a reader under UTF-8 (and names / notes that are not ASCII)
@@ -616,6 +623,13 @@ class WorldC05(World):
         self.clock.log = []
         fs.install()
         fs.arm(fault)
+        import locale as _locale
+        real_conv = _locale.localeconv
+        if self.ctx.swarm.get('numeric_locale') == 'de':
+            conv = dict(real_conv(), decimal_point=',', thousands_sep='.', grouping=[3, 3, 0],
+                        mon_decimal_point=',', mon_thousands_sep='.')
+            _locale.localeconv = lambda: dict(conv)
+            self.ctx.probe('comma-decimal-locale')
         try:
             return ('ok', fn())
         except SimCrash as e:
@@ -625,6 +639,7 @@ class WorldC05(World):
         except UnicodeDecodeError as e:
             return ('refused', e)
         finally:
+            _locale.localeconv = real_conv
             fs.uninstall()
             self.clock.uninstall()
             self._fault_used = fs.last_fault()
